@@ -218,6 +218,17 @@ class Fold(ast.NodeTransformer):
             return n.body if n.test.value else n.orelse
         return n
 
+    def visit_Attribute(self, n):
+        self.generic_visit(n)
+        # K(a, b, c).field  with K a plain record class of the repository  ->  the argument bound to the field
+        if self.repo is not None and isinstance(n.ctx, ast.Load) and isinstance(n.value, ast.Call) and isinstance(n.value.func, ast.Name):
+            from .normalize import record_value
+            v = record_value(self.repo, self.f.mod, n.value, n.attr)
+            if v is not None and all(_cheap(a) or _const(a) for a in list(n.value.args) + [k.value for k in n.value.keywords]):
+                self.changed = True
+                return copy.deepcopy(v)
+        return n
+
     def visit_Subscript(self, n):
         self.generic_visit(n)
         # TABLE["key"] with TABLE a module / class level dict display of constants, closed lambdas or accessors
@@ -1581,6 +1592,7 @@ def expand_constant_dicts(fnode):
         keys = [k.value for k in init.value.keys] if isinstance(init.value, ast.Dict) else [k.arg for k in init.value.keywords]
         ok = True
         star_uses = []
+        view_uses = []
         for x in walk_own(fnode):
             if isinstance(x, ast.Name) and x.id == d and x is not init.targets[0]:
                 p = par.get(x)
@@ -1595,11 +1607,19 @@ def expand_constant_dicts(fnode):
                 if isinstance(p, ast.Call) and p.args == [x] and not p.keywords and isinstance(p.func, ast.Attribute) and p.func.attr == "update" \
                         and isinstance(p.func.value, ast.Attribute) and p.func.value.attr == "__dict__" and isinstance(par.get(p), ast.Expr):
                     continue
+                # d.items() / d.keys() / d.values(): iteration in insertion order = the order of the display (no key may be added later)
+                if isinstance(p, ast.Attribute) and p.value is x and p.attr in ("items", "keys", "values") and isinstance(par.get(p), ast.Call) and par[p].func is p \
+                        and not par[p].args and not par[p].keywords:
+                    view_uses.append(par[p])
+                    continue
                 if isinstance(p, ast.Return) and p.value is x:
                     ok = False      # the dict escapes
                     break
                 ok = False
                 break
+        n_literal = len(init.value.keys) if isinstance(init.value, ast.Dict) else len(init.value.keywords)
+        if view_uses and len(keys) != n_literal:
+            ok = False
         if not ok or not keys:
             continue
         # every loaded key must be known
@@ -1620,6 +1640,14 @@ def expand_constant_dicts(fnode):
 
             def visit_Call(self, n):
                 self.generic_visit(n)
+                if isinstance(n.func, ast.Attribute) and isinstance(n.func.value, ast.Name) and n.func.value.id == d and n.func.attr in ("items", "keys", "values") and not n.args:
+                    if n.func.attr == "items":
+                        els = [ast.Tuple(elts=[ast.Constant(value=k_), ast.Name(id=nm(k_), ctx=ast.Load())], ctx=ast.Load()) for k_ in keys]
+                    elif n.func.attr == "keys":
+                        els = [ast.Constant(value=k_) for k_ in keys]
+                    else:
+                        els = [ast.Name(id=nm(k_), ctx=ast.Load()) for k_ in keys]
+                    return ast.copy_location(ast.Tuple(elts=els, ctx=ast.Load()), n)
                 kws = []
                 for k in n.keywords:
                     if k.arg is None and isinstance(k.value, ast.Name) and k.value.id == d:
